@@ -292,6 +292,9 @@ class ParametricTransform:
 
     def unlink_(self: Union[TSpatialTransform, ParametricTransform]) -> TSpatialTransform:
         r"""Resets transformation parameters to ``None``."""
+        # A link to another transformation is registered as child module, remove it
+        # such that data_() can set a parameter tensor again afterwards.
+        self._modules.pop("params", None)
         self.params = None
         if hasattr(self, "p"):
             delattr(self, "p")
